@@ -4,7 +4,14 @@ import "fmt"
 
 func init() {
 	generators["C01"] = func(p *Plan, r *RNG) { withRace(p, r, 6, func() { genMix(p, r, "C01") }) }
-	generators["C02"] = func(p *Plan, r *RNG) { withRace(p, r, 6, func() { genMix(p, r, "C02") }) }
+	generators["C02"] = func(p *Plan, r *RNG) {
+		if r.Chance(1, 12) {
+			// inbound connections of TCP allocations are announced to their owner only
+			genC16TwoAccepts(p, r)
+			return
+		}
+		withRace(p, r, 6, func() { genMix(p, r, "C02") })
+	}
 	generators["C04"] = func(p *Plan, r *RNG) {
 		if r.Chance(1, 6) {
 			genC04XL(p, r)
